@@ -749,7 +749,7 @@ func (g *Gen) stmt(depth int) []Stmt {
 	case 28:
 		return g.floatFor(d)
 	case 29:
-		if g.R.Chance(40) { return g.w5MetaC04(d) } // wave 5, C04: shapes_w5_c04.go
+		if g.R.Chance(12) { return g.w5MetaC04(d) } // wave 5, C04: shapes_w5_c04.go
 		if g.R.Bool() {
 			return g.indexChain(d)
 		}
